@@ -5,6 +5,7 @@
 package enrol
 
 import (
+	"time"
 	"bytes"
 	"crypto/ed25519"
 	"crypto/rand"
@@ -210,10 +211,16 @@ func one(op map[string]any, ln *Line, seed int64) {
 		reqOpts = append(reqOpts, nodeenrollment.WithWrappingRegistrationFlowApplicationSpecificParams(params))
 	}
 	serverOpts := so()
+	if boolean(op, "lifeOpt") {
+		// the application hands the same option list (with its certificate lifetime) to every call; the roots are at least
+		// a second old by now, so a leaf computed from "now + lifetime" would outlive its issuing root
+		time.Sleep(1200 * time.Millisecond)
+		serverOpts = so(nodeenrollment.WithCertificateLifetime(nodeenrollment.DefaultCertificateLifetime + time.Hour))
+	}
 	switch flow {
 	case "wrapped":
 		reqOpts = append(reqOpts, nodeenrollment.WithRegistrationWrapper(w.Wrappers["W1"]))
-		serverOpts = so(nodeenrollment.WithRegistrationWrapper(w.Wrappers["W1"]))
+		serverOpts = append(serverOpts, nodeenrollment.WithRegistrationWrapper(w.Wrappers["W1"]))
 	case "rewrapped":
 		reqOpts = append(reqOpts, nodeenrollment.WithRegistrationWrapper(w.Wrappers["W2"])) // known to the intermediate only
 	}
@@ -229,6 +236,9 @@ func one(op map[string]any, ln *Line, seed int64) {
 		var aopts []nodeenrollment.Option
 		if state != nil {
 			aopts = append(aopts, nodeenrollment.WithState(state))
+		}
+		if boolean(op, "lifeOpt") {
+			aopts = append(aopts, nodeenrollment.WithCertificateLifetime(nodeenrollment.DefaultCertificateLifetime + time.Hour))
 		}
 		if _, err := registration.AuthorizeNode(ctx, w.Store, req, so(aopts...)...); err != nil {
 			ln.Res, ln.Obs.Msg = "error", "authorize: "+err.Error()
